@@ -5,6 +5,15 @@ HERE = os.path.dirname(os.path.dirname(os.path.abspath(__file__)))
 props = [json.loads(l) for l in open(os.path.join(HERE, "properties.jsonl"))]
 TB = "Trusted: rustc front end + MIR construction (opt-level 0), the std/external models in sa/models.py (one doc citation each), 64-bit usize, debug overflow checks. "
 CLAIMED = {
+ "C01": ("proof", "A5 typestate/encapsulation + A3 byte-sequence & bit-provenance & affine-mod-256 domains + A6 regex layout + A2 field-binding rules (round trip by lemma L1)",
+         "Decides the structural clauses and says so: Data can only be built by try_new on the len <= 255 edge and is never mutated; Frame::payload is [trunc8(len), addr[15:8], addr[7:0], type] ++ data in bit provenance; the checksum is affine -sum mod 256; to_bytes emits ':' then HEX[b>>4], HEX[b&15] from \"0123456789ABCDEF\" for every byte of payload ++ [checksum], with_newline appends CRLF; the decoder builds its frame from the regex groups at the documented offsets parsed base 16. decode(encode(f)) = f then follows by the code-independent lemma L1.",
+         TB + "Lemma L1; Vec::with_capacity(n).capacity() == n (the code's own assert_eq!).", "DESIGN.md 4 C01"),
+ "C02": ("proof", "A6 regex-to-DFA language equality + A2 must-pass rules on the decoder + A3 on the LRC (corruption detection by lemma L2)",
+         "Decides that Frame::from_bytes returns Ok iff the input is in L = {documented shape, declared length == number of data pairs, LRC matches}: the regex literal (read from the compiled program) is turned into a minimised DFA with the repo's own regex-automata and compared for language equality with the documented shape; every path to Ok passes the equality edges of the length and checksum tests computed over the parsed fields; the LRC covers length, address, type and data. That every listed single corruption leaves L or decodes to the same frame is lemma L2.",
+         TB + "Lemma L2; regex-syntax 0.8.11 / regex-automata 0.4.18 compile the literal as regex 1.13.1's bytes::Regex does.", "DESIGN.md 4 C02"),
+ "C03": ("proof", "A6 language equality (strictness) + A4 unwrap lemmas from the regex group layout (totality) + A2 order/payload rules (classification)",
+         "Strictness = regex language equality; totality = every unwrap on the decoder's paths discharged by a lemma from the group layout (group on every match path, hex-only hence UTF-8, 1..=2 / 1..=4 hex digits parse as u8 / u16, data group a whole number of pairs, literal compiles), the Data length error unreachable, no other panic site; classification = InvalidFrame exactly on no-match and first, length test before checksum test, error payloads bound to declared/actual and provided/computed.",
+         TB + "'Agrees with an independent parser' is decided against the written specification instead of a second parser.", "DESIGN.md 4 C03"),
  "C04": ("proof", "A1 decision-table extraction over MIR + table comparison",
          "Both From impls are turned into decision tables by enumerating every MIR path over symbolic parameters (no input is ever chosen); every cell of the (length class x 256 types x 256 first bytes) space is compared with the reference code table and the composite Frame->Message->Frame is shown to be the identity row by row.",
          TB + "Reference table spec/wire_codes.json (shape from the property text; code bytes frozen from the pinned tree).", "DESIGN.md 4 C04"),
